@@ -1,6 +1,7 @@
 import RR.Proof.Sched
 import RR.Proof.SchedTerm
 import RR.Proof.KpnRun
+import RR.Proof.KpnRetire
 
 /-!
 # C06 — the single-threaded runner returns only at quiescence
@@ -94,5 +95,28 @@ theorem c06_every_schedule_result (nodes : List Kpn.Node)
     (s : Kpn.GState) (r : Kpn.Run nodes ⟨List.replicate (Kpn.base nodes nodes.length) [], []⟩ s)
     (hall : Kpn.AllConsumed nodes s) : s.h = Kpn.eval nodes [] :=
   Kpn.run_terminal nodes hw s r hall
+
+/-- **Retiring blocks.** Both runners stop calling a block once its `eof()` has answered true after a wait verdict.
+With the set of retired blocks added to the graph state (a retired block takes no more steps): for EVERY
+interleaving of block steps and retirements in which each retirement was *sound* — every stream the block reads
+belongs to an already retired block, the block has consumed all of it and emitted everything its history function
+gives — the state in which all blocks are retired holds the sequential reference execution on every stream. -/
+theorem c06_retire_all_is_reference (nodes : List Kpn.Node)
+    (hw : ∀ m, (hm : m < nodes.length) → ∀ i ∈ nodes[m].ins, i < Kpn.base nodes m)
+    (R : List Nat) (s : Kpn.GState)
+    (r : Kpn.RRun nodes ([], ⟨List.replicate (Kpn.base nodes nodes.length) [], []⟩) (R, s))
+    (hall : ∀ m, m < nodes.length → m ∈ R) : s.h = Kpn.eval nodes [] :=
+  Kpn.retire_all_is_reference nodes hw R s r hall
+
+/-- The soundness of the retirements is needed: a pass-through block that has consumed its three input samples
+and delivered two of them (the third still inside — `FftFilterFloat` before `fix:` 88f9b55) is in a reachable
+state that satisfies the invariant; retiring it there ends the run with `[1, 2]` where the reference has
+`[1, 2, 3]`. -/
+theorem c06_unsound_retire_loses :
+    Kpn.Run Kpn.lagNodes Kpn.lagS0 Kpn.lagS2 ∧ Kpn.Inv Kpn.lagNodes Kpn.lagS2 ∧
+    ¬ Kpn.Done Kpn.lagNodes Kpn.lagS2 1 (by decide) ∧
+    Kpn.lagS2.h.getD 1 [] = [1, 2] ∧ (Kpn.eval Kpn.lagNodes []).getD 1 [] = [1, 2, 3] :=
+  Kpn.unsound_retire_loses
+
 
 end RR.Props.C06
